@@ -30,7 +30,7 @@ fn solo(src: &str, sched: bool, tag: u64) -> Result<String, String> {
     std::fs::write(&path, src).map_err(|e| e.to_string())?;
     let exe = std::env::current_exe().map_err(|e| e.to_string())?;
     let mut cmd = std::process::Command::new(exe);
-    cmd.args(["artefacts", &path]);
+    cmd.args(["artefacts", &path, "--diags"]);
     if sched {
         cmd.arg("--sched");
     }
@@ -57,7 +57,7 @@ pub fn together_here(jobs: &[(String, bool)]) -> Vec<Result<String, String>> {
                 .stack_size(16 * 1024 * 1024)
                 .spawn(move || {
                     b.wait();
-                    panics::catch(|| compile_artefacts(&src, sched, true).digest()).map_err(|p| p.signature())
+                    panics::catch(|| compile_artefacts(&src, sched, true).digest_with_diagnostics()).map_err(|p| p.signature())
                 })
                 .expect("spawn")
         })
@@ -199,7 +199,7 @@ impl Prop for C19 {
         let mut jobs: Vec<(String, bool)> = vec![];
         let mut classes = vec![];
         for _ in 0..k {
-            match g.weighted(&[4, 4, 2, 1, 1, if jobs.is_empty() { 0 } else { 3 }]) {
+            match g.weighted(&[4, 4, 2, 1, 1, if jobs.is_empty() { 0 } else { 3 }, 2]) {
                 0 => {
                     let mut pg = PG::new(g, cfg.clone());
                     let p = pg.program();
@@ -216,6 +216,19 @@ impl Prop for C19 {
                     }
                     jobs.push((s.clone(), sched));
                     classes.push("job:shipped".to_string());
+                }
+                6 => {
+                    // a program over user sum types; half of them with a non-exhaustive match that
+                    // misses two or more constructors (the diagnostic names them)
+                    let p = crate::gens::sumgen::generate(g, &crate::gens::sumgen::SumCfg { lone_recursive_payload: false, unannotated_params: false, boxed_per_sample: true });
+                    if g.coin() {
+                        let q = crate::gens::sumgen::drop_arms(&p, g);
+                        jobs.push((crate::gens::sumgen::render(&q), false));
+                        classes.push("job:sum-nonexhaustive".to_string());
+                    } else {
+                        jobs.push((crate::gens::sumgen::render(&p), false));
+                        classes.push("job:sum".to_string());
+                    }
                 }
                 5 => {
                     // the identifiers of an earlier job, mentioned in a shuffled order
@@ -264,7 +277,7 @@ impl Prop for C19 {
         out
     }
     fn rule(&self) -> String {
-        "Cases are sets of K=2..6 jobs; a job compiles a source for both backends and runs 8 samples on both runtimes (artefacts: bytecode listing, WASM bytes, state layouts, I/O channels, outputs; diagnostics or a panic signature for failing programs). Sources: generated programs, shipped sources (incl. programs with macros, which set the process environment variable, and modules), exact duplicates, near-duplicates differing in one literal, and broken texts. Sources also include a program that mentions the identifiers of another job in a shuffled order. Each job is first run alone in its own fresh child process; then all jobs are started together on K OS threads behind a barrier in a fresh child process that has compiled nothing before (2 such processes per case). Oracle: every job's artefacts equal its solo artefacts; no panic that does not also occur alone. A difference is reported when it is seen in at least two concurrent runs (up to 10 further runs are made) and the solo artefacts are stable; otherwise it is counted as flaky-inconclusive. Non-trivial = at least two jobs that compile.".into()
+        "Cases are sets of K=2..6 jobs; a job compiles a source for both backends and runs 8 samples on both runtimes (artefacts: bytecode listing, WASM bytes, state layouts, I/O channels, outputs; diagnostics or a panic signature for failing programs). Sources: generated programs, shipped sources (incl. programs with macros, which set the process environment variable, and modules), exact duplicates, near-duplicates differing in one literal, and broken texts. Sources also include programs over user sum types (half of them with a match that misses several constructors, so that the diagnostic lists names) and a program that mentions the identifiers of another job in a shuffled order. The compared artefacts include the diagnostic messages of refused programs. Each job is first run alone in its own fresh child process; then all jobs are started together on K OS threads behind a barrier in a fresh child process that has compiled nothing before (2 such processes per case). Oracle: every job's artefacts equal its solo artefacts; no panic that does not also occur alone. A difference is reported when it is seen in at least two concurrent runs (up to 10 further runs are made) and the solo artefacts are stable; otherwise it is counted as flaky-inconclusive. Non-trivial = at least two jobs that compile.".into()
     }
     fn assumptions(&self) -> Vec<String> {
         vec![
